@@ -49,6 +49,9 @@ pub struct AllocM {
     pub observed: Vec<Option<u32>>,
     /// property families of every op that created, converted or operated on this allocation
     pub fams: u32,
+    /// the sized payload has a destructor to observe (false for payloads without drop glue)
+    pub val_tracked: bool,
+    pub hdr_tracked: bool,
 }
 
 #[derive(Default)]
@@ -145,12 +148,12 @@ impl Model {
         let a = &self.allocs[ai];
         let mut ids = Vec::new();
         if let Some(v) = a.val {
-            if v != 0 && !a.uninit {
+            if v != 0 && !a.uninit && a.val_tracked {
                 ids.push(v);
             }
         }
         if let Some(h) = a.header {
-            if h != 0 {
+            if h != 0 && a.hdr_tracked {
                 ids.push(h);
             }
         }
